@@ -501,62 +501,93 @@ func (w *SkyWorld) AfterBlock(br *world.BlockResult) []*core.Violation {
 	// failed to apply (the handler reports failure and leaves balances as they were).
 	for _, tok := range w.Tokens {
 		var ds []appliedDeposit
-		exp := w.Supply[tok.Denom]
 		for _, dp := range deposits {
 			if dp.denom == tok.Denom {
 				ds = append(ds, dp)
-				exp = exp.Add(dp.amount)
 			}
 		}
 		if len(ds) == 0 {
 			continue
 		}
 		actual := b.N.App.BankKeeper.GetSupply(ctx, tok.Denom).Amount
-		skip := -1
-		if !actual.Equal(exp) && w.FaultMethod != "" {
-			for i, dp := range ds {
-				if !exp.Sub(dp.amount).Equal(actual) {
-					continue
-				}
-				// several deposits may carry the same amount: the one that failed is the one whose (tracked) receiver was not credited
-				if acc, err := sdk.AccAddressFromBech32(dp.receiver); err == nil && w.Bal[dp.receiver] != nil {
-					got := b.N.App.BankKeeper.GetBalance(ctx, acc, dp.denom).Amount
-					if !got.Equal(w.Bal[dp.receiver][dp.denom]) && skip == -1 {
-						// credited (possibly together with others): keep looking for a better candidate, remember as fallback
-						continue
-					}
-				}
-				skip = i
-				break
-			}
-			if skip == -1 {
+		applied := make([]bool, len(ds))
+		for i := range applied {
+			applied[i] = true
+		}
+		if w.FaultMethod != "" && len(ds) <= 14 {
+			// which deposits were applied: the subset whose amounts explain the change of the supply (each deposit is applied
+			// completely or not at all; an injected failure - one call, or the collaborator down for the whole block - may
+			// have made any number of them fail). Prefer the largest such subset.
+			delta := actual.Sub(w.Supply[tok.Denom])
+			best, bestN := -1, -1
+			for mask := 0; mask < 1<<len(ds); mask++ {
+				sum, n := math.ZeroInt(), 0
 				for i, dp := range ds {
-					if exp.Sub(dp.amount).Equal(actual) {
-						skip = i
-						break
+					if mask&(1<<i) != 0 {
+						sum = sum.Add(dp.amount)
+						n++
 					}
 				}
+				if sum.Equal(delta) && n > bestN {
+					best, bestN = mask, n
+				}
 			}
-			if skip >= 0 {
-				b.R.Stats.Probe("deposit_failed_under_fault")
+			if best >= 0 {
+				for i := range ds {
+					applied[i] = best&(1<<i) != 0
+					if !applied[i] {
+						b.R.Stats.Probe("deposit_failed_under_fault")
+					}
+				}
 			}
 		}
+		// credit the receivers; under a fault the forward to the receiver may have failed, in which case the deposit went to
+		// the community pool: per receiver, the credited subset is the one that explains the receiver's balance
+		byRecv := map[string][]int{}
 		for i, dp := range ds {
-			if i == skip {
+			if !applied[i] {
 				continue
 			}
 			w.Supply[tok.Denom] = w.Supply[tok.Denom].Add(dp.amount)
 			b.R.Stats.Probe("deposit_applied")
-			if w.FaultMethod != "" {
-				// when the forward to the receiver was made to fail the deposit goes to the community pool
-				if acc, err := sdk.AccAddressFromBech32(dp.receiver); err == nil && w.Bal[dp.receiver] != nil {
-					got := b.N.App.BankKeeper.GetBalance(ctx, acc, dp.denom).Amount
-					if got.Equal(w.Bal[dp.receiver][dp.denom]) {
-						continue
+			byRecv[dp.receiver] = append(byRecv[dp.receiver], i)
+		}
+		for _, recv := range core.SortedKeys(byRecv) {
+			idx := byRecv[recv]
+			credit := make([]bool, len(idx))
+			for k := range credit {
+				credit[k] = true
+			}
+			if acc, err := sdk.AccAddressFromBech32(recv); err == nil && w.Bal[recv] != nil && w.FaultMethod != "" && len(idx) <= 14 {
+				got := b.N.App.BankKeeper.GetBalance(ctx, acc, tok.Denom).Amount
+				delta := got.Sub(w.Bal[recv][tok.Denom])
+				best, bestN := -1, -1
+				for mask := 0; mask < 1<<len(idx); mask++ {
+					sum, n := math.ZeroInt(), 0
+					for k, i := range idx {
+						if mask&(1<<k) != 0 {
+							sum = sum.Add(ds[i].amount)
+							n++
+						}
+					}
+					if sum.Equal(delta) && n > bestN {
+						best, bestN = mask, n
+					}
+				}
+				if best >= 0 {
+					for k := range idx {
+						credit[k] = best&(1<<k) != 0
+						if !credit[k] {
+							b.R.Stats.Probe("deposit_to_community_pool_under_fault")
+						}
 					}
 				}
 			}
-			w.addBal(dp.receiver, dp.denom, dp.amount)
+			for k, i := range idx {
+				if credit[k] {
+					w.addBal(recv, tok.Denom, ds[i].amount)
+				}
+			}
 		}
 	}
 
